@@ -460,7 +460,8 @@ MODULES = {
     'C07': ['C07', 'C07Parse'],
     'C09': ['C09', 'C09Rx', 'C09Compile', 'C09Compile2'],
     'C10': ['C10', 'C10Rx'],
-    'C13': ['C13', 'C13Rx'],
+    'C12': ['C12', 'C12Parse'],
+    'C13': ['C13', 'C13Rx', 'C13Parse'],
     'C17': ['C17', 'C17Dir'],
     'C18': ['C18', 'C18Range', 'C18Rx'],
     'C19': ['C19', 'C19Rx'],
@@ -473,7 +474,8 @@ AUDITS = {
     'C07': ['C07', 'C07Parse'],
     'C09': ['C09', 'C09Rx', 'C09Compile', 'C09Compile2'],
     'C10': ['C10', 'C10Rx'],
-    'C13': ['C13', 'C13Rx'],
+    'C12': ['C12', 'C12Parse'],
+    'C13': ['C13', 'C13Rx', 'C13Parse'],
     'C17': ['C17', 'C17Dir'],
     'C18': ['C18', 'C18Range', 'C18Rx'],
     'C19': ['C19', 'C19Rx'],
